@@ -137,8 +137,9 @@ class Denotation:
             order = op[1] if len(op) > 1 else 1
             outs = self.eval(x, level - 1)
             res = []
-            for o in outs:
-                for v in sorted(before.scope):
+            for oi, o in enumerate(outs):
+                # the partial derivatives of an output are taken w.r.t. the variables of THAT output
+                for v in sorted(before.layer_scope(before.outputs[oi])):
                     xv = x[v]
                     if xv.re.op != "var":
                         raise Unsupported("differentiate oracle needs symbolic real inputs")
